@@ -72,6 +72,8 @@ def k1_who_may_write(P, R):
                 sub = True
             if isinstance(base, ast.Attribute) and base.attr in PRIVATE:
                 cand.append((st, base, sub, kind))
+                if not sub and kind == "assign" and isinstance(v, ast.Constant) and v.value is None:
+                    base._reset_to_none = True
         for st, tgt, name, _s, _v in exp:
             if name in PRIVATE:
                 cand.append((st, ast.Attribute(value=tgt, attr=name, ctx=ast.Store()), False, "setattr"))
@@ -89,7 +91,12 @@ def k1_who_may_write(P, R):
             field = base.attr
             what = f"{src(base)} ({'in-place ' if sub or kind in ('aug', 'out=') else ''}{kind})"
             line = getattr(st, "lineno", None)
-            if not _owner_ok(f, field):
+            resets = {b_.attr for _s, b_, _sub, _k in cand if getattr(b_, "_reset_to_none", False) and src(b_.value) == src(base.value)}
+            if getattr(base, "_reset_to_none", False) and f.cls is not None and f.cls.name == CLS and (field == "_g_norms" or (field == "_variances" and "_g_norms" in resets)):
+                # invalidation, not a write: the cache alone (its lazy getter recomputes it), or the variances together with the
+                # cache derived from them - nothing stale can be read afterwards
+                R.ok("CACHE.K1", f.key, what, "reset to None together with what is derived from it (coherent invalidation)", line)
+            elif not _owner_ok(f, field):
                 R.violation(
                     "CACHE.K1", f.key, what,
                     f"{field} is written outside {CLS}.{PRIVATE[field]} setter / __init__ / lazy getter: "
